@@ -7,7 +7,7 @@ TRUSTED_PARSE = [
     "ocaml/driver.ml (S-expression reader/printer, no logic)",
     "tools/harness/dump.py: reads the attributes of the real (streamlined) pyparsing objects into the model's attributed "
     "grammar; tools/harness/build.py: builds grammars through the public API; observe.py: canonical observations",
-    "model limits: classes outside coq/Model/Core.v (Regex, QuotedString, CloseMatch, Each, Dict, IndentedBlock, Tag, "
+    "model limits: classes outside coq/Model/Core.v (Regex, QuotedString, CloseMatch, Dict, IndentedBlock, Tag, "
     "non-exact PrecededBy, debug/fail actions) are reported as unsupported and carry no theorem",
 ]
 
